@@ -112,7 +112,7 @@ Definition same_multiset (a b : list (list Z)) : bool := llz_eqb (sort_lex a) (s
 (* ---- observed snapshot (what the harness reads after every call) ---- *)
 Record snap := mkSnap {
   sn_pods : list name;
-  sn_nodes : list (name * name * bool * bool);        (* name, pod, bypass, available *)
+  sn_nodes : list (name * name * bool * bool * nat);  (* name, pod, bypass, available, label *)
   sn_plugs : list (name * res * res);                 (* node, capacity, usage *)
   sn_wls : list (wid * name * res);                   (* id, pod, resources (node = wi_node id unless replaced) *)
   sn_wl_nodes : list (wid * name);                    (* id, node the record says *)
@@ -127,7 +127,7 @@ Definition cstate_code (c : cstate) : Z := match c with CCreated => 0 | CRunning
 
 Definition snap_of (w : world) : snap :=
   mkSnap (pods w)
-         (map (fun x => (n_name x, n_pod x, n_bypass x, n_avail x)) (nodes w))
+         (map (fun x => (n_name x, n_pod x, n_bypass x, n_avail x, n_label x)) (nodes w))
          (map (fun p => (p_node p, p_cap p, p_use p)) (plugs w))
          (map (fun x => (w_id x, w_pod x, w_res x)) (wls w))
          (map (fun x => (w_id x, w_node x)) (wls w))
@@ -138,7 +138,7 @@ Definition snap_of (w : world) : snap :=
 
 Definition enc_snap (s : snap) : list (list Z) :=
   map (fun p => [100; zn p]) (sn_pods s)
-  ++ map (fun x => let '(n, p, b, a) := x in [101; zn n; zn p; enc_bool b; enc_bool a]) (sn_nodes s)
+  ++ map (fun x => let '(n, p, b, a, l) := x in [101; zn n; zn p; enc_bool b; enc_bool a; zn l]) (sn_nodes s)
   ++ map (fun x => let '(n, c, u) := x in [102; zn n; fst c; snd c; fst u; snd u]) (sn_plugs s)
   ++ map (fun x => let '(i, p, r) := x in 103 :: enc_wid i ++ [zn p; fst r; snd r]) (sn_wls s)
   ++ map (fun x => 104 :: enc_wid (fst x) ++ [zn (snd x)]) (sn_wl_nodes s)
@@ -295,7 +295,7 @@ Definition c10_snap_ok (s : snap) : bool :=
 (* the projection C11 speaks about: pods, nodes, capacity, usage, workload records *)
 Definition proj_c11 (s : snap) : list (list Z) :=
   map (fun p => [100; zn p]) (sn_pods s)
-  ++ map (fun x => let '(n, p, b, a) := x in [101; zn n; zn p; enc_bool b; enc_bool a]) (sn_nodes s)
+  ++ map (fun x => let '(n, p, b, a, l) := x in [101; zn n; zn p; enc_bool b; enc_bool a; zn l]) (sn_nodes s)
   ++ map (fun x => let '(n, c, u) := x in [102; zn n; fst c; snd c; fst u; snd u]) (sn_plugs s)
   ++ map (fun x => let '(i, p, r) := x in 103 :: enc_wid i ++ [zn p; fst r; snd r]) (sn_wls s)
   ++ map (fun x => 104 :: enc_wid (fst x) ++ [zn (snd x)]) (sn_wl_nodes s)
